@@ -4,7 +4,8 @@ from props.base import *
 
 PID = "C07"
 RULE = ("f.substitute(x, g): every (f, g, x) over <=2 variables, sampled over 3 variables (all 256x256x3 in the thorough tier), random f, g over "
-        "4..7 variables with x inside/outside either support and variables of g above/below x that f does not mention. "
+        "4..7 variables with x inside/outside either support and variables of g above/below x that f does not mention; few-node f, g over "
+        "300..65535 variables (the proxy-variable path extends the variable count by one: every count below the maximum must work, 65535 must panic). "
         "relation: canon(impl)=canon(model), the model being the step-faithful model of the library's own algorithm (clone / safe / proxy-variable paths), "
         "cross-checked on every step against the compositional (g /\\ f[x:=1]) \\/ (~g /\\ f[x:=0]) (proved equal); a panic on operands over the same variable "
         "count is a violation. non-trivial = x in support(f), g non-constant; distinct by sha256 of the step")
@@ -35,6 +36,19 @@ def programs(rng, tier):
         g = rand_operand(rng, nv, 0.1, max_support=4)
         sup = sorted({n[0] for n in f[2:]})
         x = rng.choice(sup) if sup and rng.random() < 0.8 else rng.randrange(nv)
+        P.add(["substitute", bdd_sx(f), str(x), bdd_sx(g)])
+    # many variables, up to the documented limit: few-node f and g over 300..65535 variables, g depending on x and on variables
+    # above / below it that f does not mention (the proxy-variable path shifts variables and extends the count by one: it must
+    # work for every count below the maximum and panic exactly at it)
+    for _ in range(40 if tier == "quick" else 800):
+        nv = rng.choice([300, 1000, 65000, 65532, 65533, 65534, 65534, 65535])
+        sup_f = sorted(rng.sample(range(nv), rng.randrange(1, 4)) + ([nv - 1] if rng.random() < 0.3 else []))
+        sup_f = sorted(set(sup_f))
+        x = rng.choice(sup_f)
+        extra = [rng.randrange(nv) for _ in range(rng.randrange(0, 3))] + ([0] if rng.random() < 0.3 else []) + ([nv - 1] if rng.random() < 0.3 else [])
+        sup_g = sorted(set(([x] if rng.random() < 0.8 else []) + extra))[:4] or [x]
+        f = bdd_from_tt(nv, sup_f, [rng.random() < 0.5 for _ in range(1 << len(sup_f))])
+        g = bdd_from_tt(nv, sup_g, [rng.random() < 0.5 for _ in range(1 << len(sup_g))])
         P.add(["substitute", bdd_sx(f), str(x), bdd_sx(g)])
     return P.progs
 
